@@ -178,7 +178,20 @@ def _check_listing(case):
         exp.append(tuple([float(c[0])] + [uv if "--" in x else float(x) for x in c[1:]]))
     if r != exp:
         return 1, "!", None, [Viol("loadTimeSeriesData", f"rows {rows} header={hdr} undefinedValue={uv}: {r}, expected {exp}")]
-    return 1, "ok", (hdr, rows, uv), []
+    # the same unchanged file again, with another undefinedValue and with the first one: a function of file and arguments only
+    other = 7.5 if uv is None else None
+    exp2 = []
+    for row in rows:
+        c = row.split(",")
+        if any("--" in x for x in c[1:]) and other is None:
+            continue
+        exp2.append(tuple([float(c[0])] + [other if "--" in x else float(x) for x in c[1:]]))
+    st2, r2, _ = call(pi.loadTimeSeriesData, fn, other)
+    st3, r3, _ = call(pi.loadTimeSeriesData, fn, uv)
+    if st2 == "exc" or r2 != exp2 or st3 == "exc" or r3 != exp:
+        return 3, "!", None, [Viol("loadTimeSeriesData-repeated", f"rows {rows} header={hdr}: loading the same unchanged file again gives "
+                                                                  f"{r2!r} (undefinedValue={other}, expected {exp2}) and {r3!r} (undefinedValue={uv}, expected {exp})")]
+    return 3, "ok", (hdr, rows, uv), []
 
 
 def parts(tier):
